@@ -496,7 +496,7 @@ func (server *Server) listen(sock socket.Socket, address string, New NewServerCo
 			}
 			var streams = make(map[uint64]*Context)
 			var pipeline = scheduler.New(1, &scheduler.Options{Threshold: 2})
-			return &ServerContext{
+			svrctx := &ServerContext{
 				codec:      codec,
 				recving:    new(sync.Mutex),
 				wg:         new(sync.WaitGroup),
@@ -505,7 +505,31 @@ func (server *Server) listen(sock socket.Socket, address string, New NewServerCo
 				sched:      sched,
 				readStream: scheduler.New(1, &scheduler.Options{Threshold: 2}),
 				streams:    streams,
-			}, nil
+			}
+			// When the listener is shut down the connection is closed by the
+			// cleanup above and is never served again, so the cleanup also has
+			// to release the handlers of its streams. The streams table
+			// belongs to whoever dispatches requests: the decode queue, or the
+			// serving goroutine under the receive lock with direct I/O.
+			server.mutex.Lock()
+			codecs[codec] = closerFunc(func() error {
+				err := messages.Close()
+				stop := func() {
+					for _, ctx := range svrctx.streams {
+						ctx.stream.Close()
+					}
+				}
+				if server.directIO {
+					svrctx.recving.Lock()
+					stop()
+					svrctx.recving.Unlock()
+				} else {
+					svrctx.pipeline.Schedule(stop)
+				}
+				return err
+			})
+			server.mutex.Unlock()
+			return svrctx, nil
 		}, func(context socket.Context) error {
 			svrctx := context.(*ServerContext)
 			ctx := server.ctxPool.Get().(*Context)
@@ -586,6 +610,12 @@ func (server *Server) listen(sock socket.Socket, address string, New NewServerCo
 		}()
 	}
 }
+
+// closerFunc adapts a function to io.Closer.
+type closerFunc func() error
+
+// Close calls f.
+func (f closerFunc) Close() error { return f() }
 
 // Listen announces on the local network address.
 func (server *Server) Listen(network, address string, codec string) error {
